@@ -1,4 +1,6 @@
-import Srctools.Proofs.C13Refine
+import Srctools.Proofs.C13Verify
+import Srctools.Proofs.C13Size
+import Srctools.Proofs.C13V2
 import Srctools.Gen.Vpk
 /-!
 # C13 — VPK archives return exactly what was last written, across reopen
@@ -48,6 +50,15 @@ theorem C13_dir (t : Tree) (f : Bytes) (hwf : TreeWF t) (hfit : t.fits = true) :
     decodeDir (encodeDir 1 t f) = .ok ⟨rawTree t, f, 1⟩
     ∧ (∀ k, Tree.lookup (rawTree t) k = t.lookup k) ∧ TreeWF (rawTree t) :=
   ⟨decodeDir_encodeDir t f hwf hfit, fun k => lookup_rawTree hwf k, treeWF_rawTree hwf⟩
+
+/-- **Reading a version-2 directory.**  A file with the 28-byte version-2 header (any 16 bytes of section
+sizes) followed by the same tree and any trailing sections is loaded with the same tree, everything
+after the tree as `footer_data` (offsets of entries stored in the directory file are relative to
+it), and version 2 — after which `write_dirfile` is refused (`step … .flush = .err .v2`). -/
+theorem C13_dir_v2 (t : Tree) (f x : Bytes) (hx : x.length = 16) (hwf : TreeWF t) (hfit : t.fits = true) :
+    decodeDir (le32 VPK_SIG ++ (le32 2 ++ (le32 (encTree t).length ++ (x ++ (encTree t ++ f)))))
+      = .ok ⟨rawTree t, f, 2⟩ :=
+  decodeDir_encode_v2 t f x hx hwf hfit
 
 /-- one name string: what `iter_nullstr` yields for the bytes `_write_nullstring` wrote, wherever they sit -/
 theorem C13_dir_string (s : Str) (rest : Bytes) (h : strOK s = true) :
@@ -105,6 +116,25 @@ theorem C13_refine (crc : Bytes → Nat) (single : Bool) (ops : List Op)
   have h := run_refines crc ops _ _ (R_init crc single) hok hfit
   exact ⟨h.1, fun k => R_read h.2 k, fun k => R_keys h.2 k, R_verify h.2⟩
 
+/-- **No `struct.error` from a size budget.**  `runFits` (the hypothesis of `C13_refine`) follows from a
+decidable bound on the history alone: every archive index fits 16 bits and
+`histCost ops` — the sum over the operations of payload length + name lengths + 26 (twice the
+name part for `add_file`) — is below 2³² − 1, for any checksum with 32-bit values. -/
+theorem C13_fits_of_size (crc : Bytes → Nat) (hcrc : ∀ b, crc b < 4294967296) (single : Bool) (ops : List Op)
+    (hok : ∀ op ∈ ops, opOK op = true ∧ idxSmall op = true) (hsize : histCost ops + 1 < 4294967296) :
+    runFits crc (World.init single) ops = true :=
+  runFits_of_cost crc hcrc ops _ _ 0 (R_init crc single) (sizeInv_init single) hok (by omega)
+
+/-- **Refinement with only static, decidable hypotheses on the history** (`opOK`, `idxSmall`, `histCost`):
+the conclusion of `C13_refine` for every such history. -/
+theorem C13_refine_sized (crc : Bytes → Nat) (hcrc : ∀ b, crc b < 4294967296) (single : Bool) (ops : List Op)
+    (hok : ∀ op ∈ ops, opOK op = true ∧ idxSmall op = true) (hsize : histCost ops + 1 < 4294967296) :
+    (run crc (World.init single) ops).2 = (specRun Spec.init ops).2
+    ∧ (∀ k, (run crc (World.init single) ops).1.read k = (specRun Spec.init ops).1.read k)
+    ∧ (∀ k, k ∈ (run crc (World.init single) ops).1.keys ↔ ((specRun Spec.init ops).1.read k).isSome = true)
+    ∧ (run crc (World.init single) ops).1.verifyAll crc = .ok true :=
+  C13_refine crc single ops (fun op h => (hok op h).1) (C13_fits_of_size crc hcrc single ops hok hsize)
+
 /-! ## names -/
 
 /-- **The three spellings of a file name resolve to the same triple**: `"d/n.e"`, `("d", "n.e")` and
@@ -127,6 +157,21 @@ theorem C13_readonly (crc : Bytes → Nat) (w : World) (v : Vpk) (hv : w.vpk = s
     (op : Op) (hop : ∀ m l, op ≠ .openVpk m l) (hh : ∀ n, op ≠ .has n) :
     (step crc w op).1 = w ∧ ∃ e, (step crc w op).2 = .err e :=
   step_readonly crc w v hv hm op hop hh
+
+/-! ## damage detection -/
+
+/-- **`verify_all()` is true exactly when every listed file is readable and the checksum of what it reads
+equals the stored CRC; and, when every file is readable (no archive missing), it is false exactly
+when some file's bytes have a checksum different from the stored one.**  So any damage to stored
+bytes that changes the checksum (for CRC-32: every change confined to 32 consecutive bits) is reported. -/
+theorem C13_verify_all_iff (crc : Bytes → Nat) (w : World) (v : Vpk) (hv : w.vpk = some v) :
+    (w.verifyAll crc = .ok true ↔
+      ∀ x ∈ v.tree.entries, ∃ d, readInfo w.archs v.footer x.2 = .ok d ∧ crc d = x.2.crc)
+    ∧ ((∀ x ∈ v.tree.entries, ∃ d, readInfo w.archs v.footer x.2 = .ok d) →
+        (w.verifyAll crc = .ok false ↔
+          ∃ x ∈ v.tree.entries, ∃ d, readInfo w.archs v.footer x.2 = .ok d ∧ crc d ≠ x.2.crc)) := by
+  simp only [World.verifyAll, hv]
+  exact ⟨verifyAll_true_iff crc _ _ _, verifyAll_false_iff crc _ _ _⟩
 
 /-! ## non-vacuity: concrete instances satisfying the hypotheses -/
 
@@ -168,6 +213,17 @@ def exOps : List Op :=
 example : (∀ op ∈ exOps, opOK op = true) ∧ runFits exCrc (World.init false) exOps = true
     ∧ runFits exCrc (World.init true) exOps = true := by decide +kernel
 
+example : (∀ b, exCrc b < 4294967296) ∧ (∀ op ∈ exOps, opOK op = true ∧ idxSmall op = true)
+    ∧ histCost exOps + 1 < 4294967296 := by
+  refine ⟨?_, by decide +kernel, by decide +kernel⟩
+  intro b
+  suffices h : ∀ (l : Bytes) (a : Nat), a < 65521 → l.foldl (fun a x => (a * 31 + x + 1) % 65521) a < 65521 by
+    have := h b 0 (by omega); unfold exCrc; omega
+  intro l
+  induction l with
+  | nil => intro a ha; simpa using ha
+  | cons x xs ih => intro a _; exact ih _ (Nat.mod_lt _ (by omega))
+
 example : (run exCrc (World.init false) exOps).2
     = [.ok, .ok, .ok, .ok, .ok, .ok, .ok, .ok, .err .readonly, .ok, .ok, .ok, .ok, .ok] := by decide +kernel
 
@@ -179,6 +235,11 @@ example : getFileParts (.str (exName "a//b/../c/n.e")) = ⟨exName "a/c", exName
 
 example : (step exCrc ⟨false, some [], [], some ⟨[], [], .r, none, 1⟩⟩ (.addFile (.str [97]) [1] none)).2
     = .err .readonly := by decide +kernel
+
+/-- one changed byte in a numbered archive: every file still reads, `verify_all()` is false -/
+example :
+    let w : World := ⟨false, none, [(1, [9, 9, 7, 7])], some ⟨[([], [([], [([97], ⟨exCrc [1, 7, 8], some 1, 2, 2, [1]⟩)])])], [], .r, none, 1⟩⟩
+    w.read ⟨[], [97], []⟩ = some (.ok [1, 7, 7]) ∧ w.verifyAll exCrc = .ok false := by decide +kernel
 
 /-! ## the excluded classes are necessary: witnesses (open known findings, replayed on the implementation) -/
 
@@ -198,6 +259,11 @@ theorem C13_name_space_witness :
 /-- a name part containing NUL makes the written directory unreadable (bad terminator) -/
 theorem C13_name_nul_witness :
     (match decodeDir (encodeDir 1 exNulTree []) with | .error e => some e | .ok _ => none) = some Err.badterm := by
+  decide +kernel
+
+/-- a name ending in `.` loses the dot: `"x."` resolves to name `x`, no extension, and is listed as `"x"` -/
+theorem C13_name_trailing_dot_witness :
+    getFileParts (.str [120, 46]) = ⟨[], [120], []⟩ ∧ joinFileParts (getFileParts (.str [120, 46])) = [120] := by
   decide +kernel
 
 /-- archive index `0x7fff` is read back as "stored after the directory tree": the model (like the
